@@ -138,7 +138,7 @@ class C34(Check):
         "default byte limit x lint/fix x processes 1/2. Each case: (a) in-process Linter.lint_paths (serial) for "
         "LintingResult.files_skipped and the record list, (b) `sqlfluff lint --format json` or `sqlfluff fix` with "
         "--processes 1 or 2 as a subprocess with the observer hook (logs Linter.parse_rendered with >=1 variant and "
-        "LintedFile.persist_tree). Model: a file is skipped iff a positive limit is exceeded (strictly). Oracle: a "
+        "LintedFile._safe_create_replace_file). Model: a file is skipped iff a positive limit is exceeded (strictly). Oracle: a "
         "skipped file has no record, is never parsed or persisted, is byte-identical afterwards, files_skipped counts "
         "it, exit status is 1 iff a processed file has an unsuppressed (lint) / unfixable (fix) violation or "
         "large_file_skip_fail is on and something was skipped; a file at or under the limits has a record with the "
@@ -200,11 +200,16 @@ class C34(Check):
         return 4 if tier == "quick" else 130
 
     def budget_s(self, tier):
-        return 200.0 if tier == "quick" else 1700.0
+        return 300.0 if tier == "quick" else 1700.0
 
     # ------------------------------------------------------------------------------------------ one case
 
     def run_case(self, case):
+        out = self._run(case)
+        out.labels = sorted(set(out.labels))  # one count per case and class
+        return out
+
+    def _run(self, case):
         out = Outcome()
         cmd, nproc = case["cmd"], int(case["processes"])
         skip_fail = bool(case.get("skip_fail"))
